@@ -16,6 +16,7 @@ const (
 	tAtom
 	tOpen
 	tClose
+	tGlue // a collapsible space without break opportunity (white-space: nowrap governs it); n = its width
 )
 
 type tok struct {
@@ -35,7 +36,8 @@ func (t tok) sx() sx.X {
 		return sx.A("br")
 	case tAtom:
 		return sx.L(sx.A("a"), sx.I(t.n), sx.I(t.h))
-	case tOpen:
+	case tOpen, tGlue:
+		// for the model a non-breaking space is an edge: width, no content, glued to both neighbours
 		return sx.L(sx.A("o"), sx.I(t.n))
 	}
 	return sx.L(sx.A("c"), sx.I(t.n))
@@ -57,6 +59,8 @@ func (t tok) String() string {
 		return fmt.Sprintf("[%dx%d]", t.n, t.h)
 	case tOpen:
 		return fmt.Sprintf("<%d:", t.n)
+	case tGlue:
+		return "="
 	}
 	return fmt.Sprintf(":%d>", t.n)
 }
@@ -69,6 +73,32 @@ func (p para) html() string {
 	var b strings.Builder
 	for _, t := range p.toks {
 		b.WriteString(t.html)
+	}
+	return b.String()
+}
+
+// htmlFor: under white-space: pre-line a newline in the source is a forced break: collapsible spaces are
+// written without newlines, and every other forced break is written as a newline instead of <br>.
+func (p para) htmlFor(ws string) string {
+	if ws != "pre-line" {
+		return p.html()
+	}
+	var b strings.Builder
+	nbr := 0
+	for _, t := range p.toks {
+		switch {
+		case t.k == tSpace || t.k == tGlue:
+			b.WriteString(strings.ReplaceAll(t.html, "\n", " "))
+		case t.k == tBr:
+			nbr++
+			if nbr%2 == 0 {
+				b.WriteString("\n")
+			} else {
+				b.WriteString(t.html)
+			}
+		default:
+			b.WriteString(t.html)
+		}
 	}
 	return b.String()
 }
@@ -96,7 +126,7 @@ func (p para) hasLeftEdge() bool {
 // a collapsible space that ends its text node (followed by an inline box edge or an atomic inline)
 func (p para) spaceEndsTextNode() bool {
 	for i, t := range p.toks {
-		if t.k == tSpace && i+1 < len(p.toks) {
+		if (t.k == tSpace || t.k == tGlue) && i+1 < len(p.toks) {
 			if k := p.toks[i+1].k; k == tOpen || k == tClose || k == tAtom {
 				return true
 			}
@@ -227,7 +257,7 @@ func (p para) total(g int) int {
 			s += t.n * g
 		case tSpace:
 			s += g
-		case tAtom, tOpen, tClose:
+		case tAtom, tOpen, tClose, tGlue:
 			s += t.n
 		}
 	}
@@ -426,6 +456,60 @@ func genLastChildNest(r *rng.R, g int) para {
 	}
 	for i := len(closes) - 1; i >= 0; i-- {
 		toks = append(toks, closes[i])
+	}
+	return para{toks: toks}
+}
+
+// genMixedWS: a paragraph whose white-space (parentWS) differs from that of some of its inline children:
+// nowrap spans in a normal paragraph, normal spans in a nowrap paragraph.  A collapsible space is a break
+// opportunity iff the element whose text holds it wraps (CSS Text 3 5.1: between siblings the parent
+// decides, inside a child the child); spaces next to a span edge are written outside the span.
+func genMixedWS(r *rng.R, g int, parentNowrap bool) para {
+	var toks []tok
+	space := func(nowrap bool) {
+		h := rng.Pick(r, " ", " ", "  ", "\t")
+		if nowrap {
+			toks = append(toks, tok{k: tGlue, n: g, html: h})
+		} else {
+			toks = append(toks, tok{k: tSpace, html: h})
+		}
+	}
+	word := func() {
+		k := r.Range(1, 5)
+		toks = append(toks, tok{k: tWord, n: k, html: strings.Repeat("x", k)})
+	}
+	n := r.Range(3, 6)
+	for i := 0; i < n; i++ {
+		if i > 0 {
+			space(parentNowrap)
+		}
+		if r.P(1, 2) {
+			word()
+			continue
+		}
+		spanNowrap := !parentNowrap
+		if r.P(1, 4) {
+			spanNowrap = parentNowrap
+		}
+		ws := "normal"
+		if spanNowrap {
+			ws = rng.Pick(r, "nowrap", "nowrap", "pre")
+		}
+		e := rng.Pick(r, 0, 0, g/2, 3)
+		toks = append(toks, tok{k: tOpen, n: 0, html: fmt.Sprintf(`<span style="white-space:%s;padding-right:%dpx">`, ws, e)})
+		m := r.Range(1, 3)
+		for j := 0; j < m; j++ {
+			if j > 0 {
+				if ws == "pre" {
+					// preserved, not collapsible, no break opportunity: exactly one space
+					toks = append(toks, tok{k: tGlue, n: g, html: " "})
+				} else {
+					space(spanNowrap)
+				}
+			}
+			word()
+		}
+		toks = append(toks, tok{k: tClose, n: e, html: "</span>"})
 	}
 	return para{toks: toks}
 }
